@@ -25,6 +25,15 @@ resuming mechanism it cannot express — the admission webhooks, the only other 
   what left `process_resource_event`, and the error throttler swallows everything before that), `cycle["apply_raised"]`
   likewise for `application.apply`.
 
+* SEVERAL KINDS AND NAMESPACES in one operator (scenario key `"kinds"`: a list of names out of `KINDS`): the operator's
+  ONE `ResourceMemories` container is shared by all the objects of all the kinds it serves. The extra resources are
+  added to the fake cluster; handlers pick theirs with `"resource": plural`; an object is referred to as `name`
+  (kopfexamples in namespace "ns", as everywhere) or `plural/name`, `plural/namespace/name` (`plural//name` for a
+  cluster-scoped kind) in `objects[].ref` and in the timeline ops create / edit / delete / recreate / admit;
+  `["compact", plural]` and `["break", how, plural]` act on that kind's watch-streams. Every processing cycle of every such
+  kind is observed like those of kopfexamples (the shared observer asks `sim.kex` which resource it records: here a
+  property that answers with the resource being processed in the current task).
+
 Selected per scenario with `"runner": "harness.props.sim_c14:run_scenario"` (see harness/sim/worker.py).
 """
 from __future__ import annotations
@@ -33,6 +42,7 @@ import asyncio
 import collections
 import collections.abc
 import contextlib
+import contextvars
 import copy
 import datetime
 import decimal
@@ -41,7 +51,15 @@ import threading
 import types
 from typing import Any, Iterator
 
-from ..sim import observe, scenario, simloop
+from ..sim import fakeapi, observe, scenario, simloop
+
+# the extra kinds an operator may serve beside kopfexamples (all in one memories container)
+KINDS = {
+    "kopfsiblings": ("kopf.dev", "v1", "kopfsiblings", "KopfSibling", True),
+    "kopfglobals": ("kopf.dev", "v1", "kopfglobals", "KopfGlobal", False),
+    "kopfcousins": ("cousins.example", "v1beta1", "kopfcousins", "KopfCousin", True),
+}
+_res_ctx: contextvars.ContextVar = contextvars.ContextVar("c14_resource", default=None)
 
 
 class Opaque:
@@ -145,11 +163,24 @@ class Observer14(observe.Observer):
 
 
 @contextlib.contextmanager
-def installed14() -> Iterator[None]:
+def installed14(sim: Any = None) -> Iterator[None]:
     """On top of `observe.installed`: what left `process_changing_cause` / `application.apply` in each cycle."""
     from kopf._core.actions import application
     from kopf._core.reactor import processing
     inner_pcc, inner_apply = processing.process_changing_cause, application.apply
+    inner_pre = processing.process_resource_event
+
+    async def process_resource_event(**kw: Any) -> Any:
+        # the shared observer records the cycles of `sim.kex` only: tell it that this task is processing another kind
+        res = kw.get("resource")
+        rd = None if sim is None else sim.extra.get((getattr(res, "group", None), getattr(res, "version", None), getattr(res, "plural", None)))
+        if rd is None:
+            return await inner_pre(**kw)
+        tok = _res_ctx.set(rd)
+        try:
+            return await inner_pre(**kw)
+        finally:
+            _res_ctx.reset(tok)
 
     async def process_changing_cause(**kw: Any) -> Any:
         try:
@@ -171,9 +202,11 @@ def installed14() -> Iterator[None]:
 
     processing.process_changing_cause = process_changing_cause  # type: ignore[assignment]
     application.apply = apply  # type: ignore[assignment]
+    processing.process_resource_event = process_resource_event  # type: ignore[assignment]
     try:
         yield
     finally:
+        processing.process_resource_event = inner_pre  # type: ignore[assignment]
         processing.process_changing_cause = inner_pcc  # type: ignore[assignment]
         application.apply = inner_apply  # type: ignore[assignment]
 
@@ -194,8 +227,51 @@ class FakeWebhookServer:
 
 
 class Sim14(scenario.Sim):
+    extra: dict = {}
+
+    @property
+    def kex(self) -> Any:
+        """The resource whose cycles the shared observer records: the one being processed in this task, if it is one of
+        the scenario's extra kinds; kopfexamples otherwise (and always on the scenario's own timeline)."""
+        return _res_ctx.get() or self._kex
+
+    @kex.setter
+    def kex(self, value: Any) -> None:
+        self._kex = value
+
+    def _echo_delay(self, w: Any, etype: str, body: dict) -> float:
+        tok = _res_ctx.set(None)        # echo rules and slips are about kopfexamples, whoever's request it is
+        try:
+            return super()._echo_delay(w, etype, body)
+        finally:
+            _res_ctx.reset(tok)
+
+    def _slip(self, req: dict) -> None:
+        tok = _res_ctx.set(None)
+        try:
+            super()._slip(req)
+        finally:
+            _res_ctx.reset(tok)
+
+    def resolve(self, ref: str) -> tuple[Any, str | None, str]:
+        """`name` | `plural/name` | `plural/namespace/name` → (resource, namespace, name)."""
+        parts = str(ref).split("/")
+        if len(parts) == 1:
+            return self._kex, "ns", parts[0]
+        rd = self._kex if parts[0] == self._kex.plural else self.by_plural[parts[0]]
+        ns = "ns" if len(parts) == 2 else (parts[1] or None)
+        return rd, (ns if rd.namespaced else None), parts[-1]
+
     def __init__(self, sc: dict):
         super().__init__(sc)
+        self.extra = {}
+        self.by_plural: dict[str, Any] = {}
+        for k in sc.get("kinds") or []:
+            group, version, plural, kind, namespaced = KINDS[k]
+            rd = fakeapi.ResourceDef(group, version, plural, kind, namespaced=namespaced)
+            self.cluster.add_resource(rd)
+            self.extra[rd.key] = rd
+            self.by_plural[plural] = rd
         # scripted handlers that can return what JSON cannot write down (the registry is rebuilt around them)
         self.obs = Observer14(self)
         self.registry = scenario.build_registry(sc, self.obs)
@@ -224,21 +300,63 @@ class Sim14(scenario.Sim):
             s.admission.managed = None
         return s
 
+    def _apply_ref_op(self, op: list) -> bool:
+        """The cluster ops on an object / a kind given by reference (see `resolve`). False: not such an op."""
+        c, kind, args = self.cluster, op[0], op[1:]
+        if kind in ("create", "edit", "delete", "recreate") and "/" in str(args[0]):
+            rd, ns, name = self.resolve(args[0])
+            if kind == "create":
+                if c.get(rd, ns, name) is None:
+                    c.create_raw(rd, ns, name, args[1] if len(args) > 1 else {"spec": {"x": 0}})
+            elif kind == "edit":
+                c.edit(rd, ns, name, args[1])
+            elif kind == "delete":
+                c.delete(rd, ns, name)
+            else:
+                if c.get(rd, ns, name) is not None:
+                    c.mutate(rd, ns, name, lambda b: b["metadata"].pop("finalizers", None))
+                    c.delete(rd, ns, name)
+                c.create_raw(rd, ns, name, args[1] if len(args) > 1 else {"spec": {"x": 0}})
+        elif kind == "compact" and args:
+            c.compact(self.resolve(args[0] + "/-")[0])
+        elif kind == "break" and len(args) > 1:
+            c.break_watches(self.resolve(args[1] + "/-")[0], args[0])
+        else:
+            return False
+        self.mark("op", op=op)
+        return True
+
     def apply_op(self, op: list) -> None:
         if op[0] != "admit":
-            return super().apply_op(op)
-        name, operation = op[1], (op[2] if len(op) > 2 else "UPDATE")
+            if not self._apply_ref_op(op):
+                super().apply_op(op)
+            return
+        ref, operation = op[1], (op[2] if len(op) > 2 else "UPDATE")
+        rd, ns, name = self.resolve(ref)
         # the object as it is NOW (the request is about this state, whenever the server gets to serve it); the review of
         # a creation comes before the object exists: no uid, no resourceVersion yet
-        body = self.cluster.get(self.kex, "ns", name)
+        body = self.cluster.get(rd, ns, name)
         if body is None and operation == "CREATE":
-            body = {"apiVersion": f"{self.kex.group}/{self.kex.version}", "kind": "KopfExample",
-                    "metadata": {"name": name, "namespace": "ns", "labels": {"l": "1"}}, "spec": {"x": 1}}
+            body = {"apiVersion": rd.api_version, "kind": rd.kind,
+                    "metadata": {"name": name, "labels": {"l": "1"}, **({"namespace": ns} if rd.namespaced else {})}, "spec": {"x": 1}}
         self.side_tasks.append(asyncio.get_running_loop().create_task(
-            self._admit(name, operation, None if body is None else copy.deepcopy(body))))
+            self._admit(name, operation, None if body is None else copy.deepcopy(body), rd)))
         self.mark("op", op=op)
 
-    async def _admit(self, name: str, operation: str, body: Any) -> None:
+    async def run(self) -> dict:
+        # objects that exist before the operator starts, of any kind / namespace (`ref`); the plain ones are the parent's
+        plain = []
+        for o in self.sc.get("objects", []):
+            if "ref" in o:
+                rd, ns, name = self.resolve(o["ref"])
+                self.cluster.create_raw(rd, ns, name, o.get("body", {"spec": {"x": 0}}))
+            else:
+                plain.append(o)
+        self.sc["objects"] = plain
+        return await super().run()
+
+    async def _admit(self, name: str, operation: str, body: Any, rd: Any = None) -> None:
+        rd = rd or self._kex
         if not self.webhook_servers:
             self.mark("admit-skipped", why="no webhook server in this scenario")
             return
@@ -250,7 +368,7 @@ class Sim14(scenario.Sim):
         self._admit_n += 1
         request = {"apiVersion": "admission.k8s.io/v1", "kind": "AdmissionReview", "request": {
             "uid": f"review-{self._admit_n}", "operation": operation, "dryRun": False,
-            "resource": {"group": self.kex.group, "version": self.kex.version, "resource": self.kex.plural},
+            "resource": {"group": rd.group, "version": rd.version, "resource": rd.plural},
             "userInfo": {"username": "somebody", "uid": "u1", "groups": []},
             "object": None if operation == "DELETE" else body,
             "oldObject": None if operation == "CREATE" else body}}
@@ -278,7 +396,7 @@ def run_scenario(sc: dict, wall_limit: float = 60.0) -> dict:
     async def main() -> dict:
         sim = Sim14(copy.deepcopy(sc))
         holder["sim"] = sim
-        with observe.installed(sim.obs), installed14():
+        with observe.installed(sim.obs), installed14(sim):
             try:
                 return await sim.run()
             finally:
